@@ -83,14 +83,6 @@ def td_compare(orig, rest, keys=None):
     return content, dtype, "; ".join(why[:4])
 
 
-class Budget:
-    def __init__(self, secs):
-        self.t0, self.secs = time.time(), secs
-
-    def left(self):
-        return self.secs - (time.time() - self.t0)
-
-
 # ---------------------------------------------------------------------------------------------
 # running the real environments
 # ---------------------------------------------------------------------------------------------
@@ -289,7 +281,15 @@ LARGER = {
 def make_env(name, params=None, seed=7):
     from rl4co.envs import ENV_REGISTRY
 
-    env = ENV_REGISTRY[name](generator_params=dict(params if params is not None else SMALL.get(name, {})), seed=seed)
+    if callable(params):            # environments that need prepared data files: built by their pipeline adapter
+        torch.manual_seed(seed)
+        env = params()
+    elif name == "tsp_dense":       # exported by rl4co.envs but not registered
+        from rl4co.envs import DenseRewardTSPEnv
+
+        env = DenseRewardTSPEnv(generator_params=dict(params or SMALL["tsp"]), seed=seed)
+    else:
+        env = ENV_REGISTRY[name](generator_params=dict(params if params is not None else SMALL.get(name, {})), seed=seed)
     env.check_solution = False      # random mask-confined episodes incl. post-finish steps: the checker is not under test
     return env
 
@@ -315,12 +315,12 @@ def pick(fam, nmax, rnd):
     return [fam[int(i * step)] for i in range(nmax)]
 
 
-def run_model(ad, tag, fam):
+def run_model(ad, tag, fam, workers=16):
     wd, root = tlc.prepare("c19_persist_" + tag, template="Persist", env_module=ad.module)
     f = os.path.join(wd, "family.json")
     tlc.dump_json(f, fam)
     tlc.write_cfg(wd, root, spec="PSpec", invariants=MODEL_INV)
-    r = tlc.run(wd, root, env={"FAMILY_FILE": f}, coverage=True)
+    r = tlc.run(wd, root, env={"FAMILY_FILE": f}, coverage=True, workers=workers, heap="3g")
     if r.violated:
         raise tlc.TLCError("Persist_%s: %s violated in the MODEL (original and restored copy of the environment "
                            "model disagree) -- see %s/tlc.log" % (ad.module, r.violated, wd))
@@ -455,13 +455,16 @@ def realisations(ad, env, real, td, group, tag):
             yield "text file (single) + load_data", "text", env_r, td_r, [k]
 
 
-def replay_env(ad, tier, seed, nmax, viol, samples, stats):
-    """TLC on Persist_<ENV>, then every printed state of the restored copy against the real restored objects"""
-    rnd = random.Random(seed)
-    fam = pick([i for i in ad.family(tier, seed)], nmax, rnd)
+def family_of(ad, tier, seed, nmax):
+    fam = pick([i for i in ad.family(tier, seed)], nmax, random.Random(seed))
     for k, i in enumerate(fam):
         i["id"] = k + 1
-    r, S, T, G = run_model(ad, ad.name, fam)
+    return fam
+
+
+def replay_env(ad, fam, model, viol, samples, stats):
+    """every state TLC printed for the restored copy of Persist_<ENV> against the real restored objects"""
+    r, S, T, G = model
     stats["states"] += r.distinct
     stats["transitions"] += r.generated
     stats["coverage"][ad.name] = r.coverage()
@@ -567,7 +570,7 @@ def replay_adapters(tier):
 
         for mod, cls, n in (("atsp", "ATSP", 10), ("pdp", "PDP", 10), ("op", "OP", 30), ("pctsp", "PCTSP", 30),
                             ("sdvrp", "SDVRP", 30), ("mtsp", "MTSP", 20), ("cvrptw", "CVRPTW", 30),
-                            ("smtwtp", "SMTWTP", 20), ("svrp", "SVRP", 20)):
+                            ("smtwtp", "SMTWTP", 20)):
             try:
                 ads.append((getattr(importlib.import_module("harness.envs." + mod), cls)(), n))
             except (ImportError, AttributeError):
@@ -578,7 +581,7 @@ def replay_adapters(tier):
 # ---------------------------------------------------------------------------------------------
 # (3) recorded round trips of the real code
 # ---------------------------------------------------------------------------------------------
-def rec_npz(tier, seed, recs):
+def rec_npz(tier, seed, recs, notes):
     """(route 1) save_tensordict_to_npz / load_npz_to_tensordict for the instances of every generator"""
     from rl4co.data.utils import load_npz_to_tensordict, save_tensordict_to_npz
 
@@ -608,6 +611,19 @@ def rec_npz(tier, seed, recs):
                         recs += records_for("npz", what, None, None, c, dt, True, True, ([[]] * size, [0] * size),
                                             ([[]] * size, [0] * size))
                     n += 1
+    # observation only (a route C19 does not name): generator instances saved with save_tensordict_to_npz are NOT what
+    # CVRPEnv.load_data expects (it divides by the capacity once more, and the generator's capacity is [B, 1])
+    env = make_env("cvrp", seed=seed + 3)
+    td = env.generator([3])
+    f = os.path.join(d, "cvrp_generator_instances.npz")
+    save_tensordict_to_npz(td, f)
+    try:
+        back = env.load_data(f)
+        notes["cvrp generator instances -> save_tensordict_to_npz -> CVRPEnv.load_data"] = {
+            "saved demand": list(td["demand"].shape), "loaded demand": list(back["demand"].shape),
+            "max saved": float(td["demand"].max()), "max loaded": float(back["demand"].max())}
+    except Exception as e:  # noqa: BLE001
+        notes["cvrp generator instances -> save_tensordict_to_npz -> CVRPEnv.load_data"] = "raised %s" % type(e).__name__
     # MTVRP has its own loader (scale=False leaves the file as it is)
     env = make_env("mtvrp", seed=seed + 3)
     td = env.generator([3])
@@ -626,6 +642,9 @@ GEN_CASES = [  # problem name of generate_data, environment, graph size, distrib
     ("atsp", "atsp", 5, None)]
 GEN_CASES_MORE = [("tsp", "tsp", 20, None), ("vrp", "cvrp", 20, None), ("vrp", "cvrp", 15, None), ("pdp", "pdp", 10, None),
                   ("atsp", "atsp", 8, None), ("op", "op", 50, "dist"), ("pctsp", "pctsp", 50, None)]
+
+
+VRP_CAPACITY = {10: 20.0, 15: 25.0, 20: 30.0, 30: 33.0, 40: 37.0, 50: 40.0}     # Kool et al. 2019 (documented in generate_vrp_data)
 
 
 def in_memory_equivalent(problem, arrays):
@@ -666,6 +685,13 @@ def rec_dataset(tier, seed, recs):
                 c, dt, why = td_compare(td_o, td_r)
                 if td_r.batch_size != td_o.batch_size:
                     c, why = False, why + " batch size %s" % (td_r.batch_size,)
+                if problem == "vrp" and c:
+                    # what generate_data documents for the VRP, independently of both loaders: integer demands 1..9 and
+                    # one capacity from the table of Kool et al. -- the loaded demands are those, in units of the capacity
+                    raw = td_r["demand"].double() * td_r["capacity"].double().reshape(-1, 1)
+                    if not bool(((raw - raw.round()).abs() < 1e-4).all() and (raw.round() >= 1).all() and (raw.round() <= 9).all()
+                                and (td_r["capacity"] == VRP_CAPACITY[size]).all()):
+                        c, why = False, why + " loaded demand x capacity %s is not the documented integer 1..9" % raw[0].tolist()[:4]
                 what = "generate_dataset(%s,%s,size=%d,n=%d,%s) + %s.load_data %s" % (
                     problem, dist, size, dsize, how, type(env).__name__, why)
                 recs += side_by_side("dataset", what, env, td_o, env, td_r, c, dt, True, True, seed)
@@ -673,7 +699,7 @@ def rec_dataset(tier, seed, recs):
     return n
 
 
-def rec_text(tier, seed, recs):
+def rec_text(tier, seed, recs, viol):
     """(route 3) FJSP / JSSP instances -> text files -> instances (FJSPFileGenerator / JSSPFileGenerator, load_data)"""
     quick = tier == "quick"
     n = 0
@@ -693,8 +719,23 @@ def rec_text(tier, seed, recs):
                         with torch.random.fork_rng():
                             torch.manual_seed(seed * 31 + size + 7 * ci)
                             td = env.generator([size])
-                        env_r, td_r = text_roundtrip(env, td, fresh_dir("text", "%s_%d_%d_%s" % (name, ci, size, route)),
-                                                     route)
+                        where = fresh_dir("text", "%s_%d_%d_%s" % (name, ci, size, route))
+                        env_r, td_r = text_roundtrip(env, td, where, route)
+                        if route == "load_data" and ci == 0 and mask_no_ops:
+                            # the loader as every other environment's is called: load_data(path), batch_size left at its default
+                            try:
+                                env.load_data(where)
+                            except Exception as e:  # noqa: BLE001
+                                from ..check import crash_site
+
+                                if crash_site(e) is None:
+                                    raise
+                                viol.append({"property": "C19", "env": name, "monitor": "library-raised",
+                                             "cls": "load_data-default-batch_size",
+                                             "inst": {"files": size, "where": crash_site(e), "call": "env.load_data(path)"},
+                                             "actions": [], "detail": "%s.load_data(<directory of %d instance files>) with the "
+                                             "default batch_size=[] raised %s: %s" % (type(env).__name__, size,
+                                                                                       type(e).__name__, str(e)[:120])})
                         what = "%s %s n=%d mask_no_ops=%s text files + %s" % (name, params, size, mask_no_ops, route)
                         if td_r is None:
                             recs += records_for("text", what + " (files do not come back one instance each)", None, None,
@@ -731,8 +772,19 @@ def rec_envcopy(tier, seed, recs):
     from rl4co.envs.scheduling.fjsp.parser import write
 
     fdir = fresh_dir("envcopy_fjsp_files")
-    write(fdir, fenv.reset(fenv.generator([5])))
+    write(fdir, fenv.reset(fenv.generator([12])))   # enough files: the cursor never reaches the end
     cases.append(("fjsp", {"file_path": fdir}))
+    cases.append(("tsp_dense", None))
+    if not quick:
+        try:    # DPP / MDPP on the synthetic chip data of the environment pipeline
+            from ..envs import dpp
+
+            for A in (dpp.DPP, dpp.MDPP):
+                ad = A()
+                cases.append((ad.name, (lambda ad=ad: ad.make_env(ad.family("quick", 0)[0]))))
+        except ImportError:
+            pass
+    nthreads = torch.get_num_threads()
     for (name, params) in cases:
         for how in ("deepcopy", "pickle"):
             for advance in ((1,) if quick else (0, 1)):
@@ -761,13 +813,15 @@ def rec_envcopy(tier, seed, recs):
                 r1, _, w1 = td_compare(nxt, got)
                 r2, _, w2 = td_compare(nxt2, got2)
                 c = plain_state(env) == plain_state(env_r) and plain_state(env.generator) == plain_state(env_r.generator)
-                what = "%s(%s) %s after %d resets %s %s" % (type(env).__name__, params or "", how, advance, w1, w2)
+                what = "%s(%s) %s after %d resets %s %s" % (type(env).__name__, "" if callable(params) else (params or ""),
+                                                             how, advance, w1, w2)
                 if "action_mask" in nxt2.keys():
                     recs += side_by_side("envcopy", what, env, nxt, env_r, nxt, c, True, True, r1 and r2, seed)
                 else:
                     recs += records_for("envcopy", what, None, None, c, True, True, r1 and r2,
                                         ([[]] * B, [0] * B), ([[]] * B, [0] * B))
                 n += 1
+    torch.set_num_threads(nthreads)
     return n
 
 
@@ -931,15 +985,24 @@ def run(tier, seed):
     viol, samples, recs, notes = [], [], [], {}
     stats = {"states": 0, "transitions": 0, "replayed_steps": 0, "replayed_behaviours": 0, "coverage": {}, "per_env": {}}
     # ---- (1) + (2) the specification and its replay ----
-    for ad, nmax in replay_adapters(tier):
-        replay_env(ad, tier, seed, nmax, viol, samples, stats)
+    import concurrent.futures as cf
+
+    ads = replay_adapters(tier)
+    fams = [family_of(ad, tier, seed, nmax) for ad, nmax in ads]
+    with cf.ThreadPoolExecutor(max_workers=4) as ex:     # the TLC runs side by side, 4 workers each
+        models = list(ex.map(lambda k: run_model(ads[k][0], ads[k][0].name, fams[k], workers=4), range(len(ads))))
+    t_model = time.time() - t0
+    for (ad, _), fam, model in zip(ads, fams, models):
+        t1 = time.time()
+        replay_env(ad, fam, model, viol, samples, stats)
+        stats["per_env"][ad.name]["wall_replay_s"] = round(time.time() - t1, 1)
     t_replay = time.time() - t0
     # ---- (3) recorded round trips ----
     counts = {}
     torch.manual_seed(seed)
-    counts["npz"] = rec_npz(tier, seed, recs)
+    counts["npz"] = rec_npz(tier, seed, recs, notes)
     counts["dataset"] = rec_dataset(tier, seed, recs)
-    counts["text"] = rec_text(tier, seed, recs)
+    counts["text"] = rec_text(tier, seed, recs, viol)
     counts["envcopy"] = rec_envcopy(tier, seed, recs)
     counts["ckpt"] = rec_ckpt(tier, seed, recs, viol, notes)
     t_rec = time.time() - t0 - t_replay
@@ -973,7 +1036,7 @@ def run(tier, seed):
            "recorded_rows": len(recs), "recorded_round_trips": counts,
            "records_by_kind": {k: sum(1 for r in recs if r["kind"] == k) for k in ("npz", "dataset", "text", "envcopy", "ckpt")},
            "per_env": stats["per_env"], "tlc_action_coverage": stats["coverage"], "known_finding_witnesses": n_known,
-           "observations": notes, "wall_replay_s": round(t_replay, 1), "wall_record_s": round(t_rec, 1),
+           "observations": notes, "wall_model_s": round(t_model, 1), "wall_replay_s": round(t_replay - t_model, 1), "wall_record_s": round(t_rec, 1),
            "explanation": "Persist.tla (original and restored copy of the environment model, codecs same / text) model-checked "
                           "for small-scope families; every printed state of the restored copy replayed into the real "
                           "restored objects; recorded real round trips validated by PersistTrace.tla"}
